@@ -5,12 +5,12 @@ import Enc.Lemmas.ThriftRoundTripFindings
 
 Entry points of the decoder round trip through structs, sets and maps (all files `ThriftRoundTrip*.lean`):
 
-  * `decode_norm` (`…Main`)        `RTS ty v → |encode p ty v| + depth ty ≤ fuel →
-                                     decode p strict fuel ty (encode p ty v ++ rest) (zeroOf ty) = ok (norm ty v, rest)`
+  * `decode_norm` (`…Main`)        `RTS ty v → d + nest ty ≤ maxDepth → |encode p ty v| + depth ty ≤ fuel →
+                                     decode p strict d fuel ty (encode p ty v ++ rest) (zeroOf ty) = ok (norm ty v, rest)`
   * `decode_struct`                 the struct instance, stated with `normFields`
   * `decodeStruct_fields` (`…Fields`) the struct loop: records consumed one by one, all required ids seen
   * `decodeSet_norm`, `decodeMap_norm`, `mapPut_flat` (`…Coll`)
-  * `unmarshal_marshal`             `RTS ty v → unmarshal p strict ty (marshal p ty v) = ok (norm ty v)`
+  * `unmarshal_marshal`             `RTS ty v → nest ty ≤ maxDepth → unmarshal p strict ty (marshal p ty v) = ok (norm ty v)`
   * `norm_exact` (`…Exact`), `unmarshal_marshal_exact_partial`   `Exact ty v → … = ok v`
 
 Universe `RTS` (Bool, executable): bool, signed integers within their kind, f32/f64 (bit patterns < 2^64), strings,
@@ -22,6 +22,12 @@ kinds, arrays, interfaces (the encoder rejects them), enum-tagged fields of anot
 
 The three known deviations are INSIDE the universe and absorbed by `norm` (so the `decode_norm`/`unmarshal_marshal`
 statements are unconditional there); they are excluded by `Exact` in the `…_partial` statement.
+
+Nesting depth: since the fix 9c8d6b4 the decoder counts the lists, sets, maps and structs it has entered (`d`, Go
+`flags.depth()`) and rejects a container entered at depth ≥ maxDepth = 10000 (`Gen.c_thrift_maxDepth`) with `maxDepth`;
+the ENCODER has no such limit. A type nested deeper than maxDepth containers (`nest ty`, defined in the model) therefore
+does not round-trip, and the theorems carry the hypothesis `d + nest ty ≤ maxDepth` (`nest ty ≤ maxDepth` for
+`unmarshal`, which starts at depth 0). The condition is on the TYPE only and is deliberately not part of `RTS`.
 -/
 namespace Enc.Lemmas.ThriftRoundTrip
 open Enc Enc.Model.Thrift Enc.Lemmas.ThriftPrim Enc.Lemmas.ThriftSkip
@@ -30,18 +36,21 @@ open Enc Enc.Model.Thrift Enc.Lemmas.ThriftPrim Enc.Lemmas.ThriftSkip
 at its declared position; fields that were not written (untagged, nil pointer, non-required zero value) keep their zero
 value; the required-field check passes. -/
 theorem decode_struct (p : Proto) (strict : Bool) (fs : Fields) (vs : Vals) (h : RTS (.struct fs) (.struct vs) = true)
-    (fuel : Nat) (rest : Bytes) (hf : (encode p (.struct fs) (.struct vs)).length + depth (.struct fs) ≤ fuel) :
-    decode p strict fuel (.struct fs) (encode p (.struct fs) (.struct vs) ++ rest) (zeroOf (.struct fs))
+    (d fuel : Nat) (rest : Bytes) (hd : d + nest (.struct fs) ≤ Gen.c_thrift_maxDepth)
+    (hf : (encode p (.struct fs) (.struct vs)).length + depth (.struct fs) ≤ fuel) :
+    decode p strict d fuel (.struct fs) (encode p (.struct fs) (.struct vs) ++ rest) (zeroOf (.struct fs))
       = .ok (.struct (normFields fs vs), rest) := by
-  have := decode_norm p strict (.struct fs) (.struct vs) h fuel rest hf
+  have := decode_norm p strict (.struct fs) (.struct vs) h d fuel rest hd hf
   simpa only [norm] using this
 
 /-- **C04, entry point.** `Unmarshal(Marshal(v))` succeeds with the normal form of `v`, for the three protocol settings
-and both decoder modes, for every type of the universe whatever its nesting depth: the model's `unmarshal` supplies the
-fuel `4·len + 64 + depth ty` (the fuel is a model device: Go recurses on the type without a budget). -/
-theorem unmarshal_marshal (p : Proto) (strict : Bool) (ty : Ty) (v : Val) (h : RTS ty v = true) :
+and both decoder modes, for every type of the universe nested at most maxDepth = 10000 containers deep (`hd`; deeper
+types are rejected by the decoder since the fix 9c8d6b4, pointers and named types do not count): the model's `unmarshal`
+supplies the fuel `4·len + 64 + depth ty` (the fuel is a model device: Go recurses on the type without a budget). -/
+theorem unmarshal_marshal (p : Proto) (strict : Bool) (ty : Ty) (v : Val) (h : RTS ty v = true)
+    (hd : nest ty ≤ Gen.c_thrift_maxDepth) :
     unmarshal p strict ty (marshal p ty v) = .ok (norm ty v) := by
-  have := decode_norm p strict ty v h (4 * (encode p ty v).length + 64 + depth ty) [] (by omega)
+  have := decode_norm p strict ty v h 0 (4 * (encode p ty v).length + 64 + depth ty) [] (by omega) (by omega)
   rw [List.append_nil] at this
   unfold unmarshal marshal
   rw [this]
@@ -55,9 +64,23 @@ exact round trip is false in the model, `norm` says what comes back instead):
   * nil `[]byte` / slice / map in a required field or inside a collection: comes back empty and non-nil;
   * values held by untagged fields (never written), set members other than `struct{}{}`;
 and, outside `RTS` altogether: enum-tagged fields of a kind other than int32, required pointer fields that are nil
-(`missingField`), unsigned kinds / arrays / interfaces, ids outside 1 … 32767 or repeated. -/
+(`missingField`), unsigned kinds / arrays / interfaces, ids outside 1 … 32767 or repeated; and types nested deeper than
+maxDepth containers (`hd`). -/
 theorem unmarshal_marshal_exact_partial (p : Proto) (strict : Bool) (ty : Ty) (v : Val) (h : RTS ty v = true)
-    (hx : Exact ty v) : unmarshal p strict ty (marshal p ty v) = .ok v := by
-  rw [unmarshal_marshal p strict ty v h, norm_exact ty v hx]
+    (hd : nest ty ≤ Gen.c_thrift_maxDepth) (hx : Exact ty v) : unmarshal p strict ty (marshal p ty v) = .ok v := by
+  rw [unmarshal_marshal p strict ty v h hd, norm_exact ty v hx]
+
+/-- the depth hypothesis is satisfiable for nested types (`[]map[string]struct{ A []int32 }`: 4 containers) -/
+example : nest (.slice (.map .str (.struct (.cons "A" "thrift:\"1\"" false (.slice (.int .i32)) .nil))))
+    ≤ Gen.c_thrift_maxDepth := by decide
+
+/-- non-vacuity of `unmarshal_marshal`: a nested value in the universe (evaluated, tags are strings), within the depth
+bound -/
+example : nest Findings.big ≤ Gen.c_thrift_maxDepth := by decide
+#guard RTS Findings.big Findings.bigV && nest Findings.big == 3
+
+#print axioms decode_norm
+#print axioms unmarshal_marshal
+#print axioms unmarshal_marshal_exact_partial
 
 end Enc.Lemmas.ThriftRoundTrip
